@@ -426,6 +426,16 @@ impl<'tcx> Cx<'tcx> {
 
     // ---------- callee ----------
 
+    fn track_caller(&self, d: DefId) -> bool {
+        if !matches!(self.tcx.def_kind(d), DefKind::Fn | DefKind::AssocFn) {
+            return false;
+        }
+        self.tcx
+            .codegen_fn_attrs(d)
+            .flags
+            .contains(rustc_middle::middle::codegen_fn_attrs::CodegenFnAttrFlags::TRACK_CALLER)
+    }
+
     pub fn callee_json(
         &self,
         d: DefId,
@@ -439,6 +449,10 @@ impl<'tcx> Cx<'tcx> {
         o.set("hash", J::s(self.hash(d)));
         o.set("name", J::s(tcx.opt_item_name(d).map(|s| s.to_string()).unwrap_or_default()));
         o.set("local", J::Bool(d.is_local()));
+        if self.track_caller(d) {
+            // `#[track_caller]`: std marks the functions that may panic on behalf of their caller (and the allocating ones)
+            o.set("track_caller", J::Bool(true));
+        }
         if let Some(k) = self.keys.get(&d) {
             o.set("key", J::s(k.clone()));
         } else if d.is_local() && matches!(tcx.def_kind(d), DefKind::AssocFn | DefKind::Fn) {
@@ -499,6 +513,9 @@ impl<'tcx> Cx<'tcx> {
                     let mut r = J::obj();
                     r.set("path", J::s(self.path(rd)));
                     r.set("crate", J::s(self.crate_of(rd)));
+                    if self.track_caller(rd) {
+                        r.set("track_caller", J::Bool(true));
+                    }
                     if let Some(k) = self.keys.get(&rd) {
                         r.set("key", J::s(k.clone()));
                     }
